@@ -455,7 +455,7 @@ func (ps *parser) mul() Expr {
 }
 
 func (ps *parser) unary() Expr {
-	if ps.isOp("!") || ps.isOp("-") || ps.isOp("*") {
+	if ps.isOp("!") || ps.isOp("-") || ps.isOp("*") || ps.isOp("&") {
 		op := ps.next().v
 		return &EUnary{op, ps.unary()}
 	}
